@@ -682,6 +682,9 @@ def gen_task(task, tier):
                     j = val_json(v)
                     calls = rng.choice([[], [], NAT, RAW]) if isinstance(v, int) else rng.choice([[], [], RAW])
                     lines.append(no_line(lang, j, calls, noun, rng.choice(["const", "const", "dep"]), g))
+                # the number in words before the noun (sign and French gender of `un`), both notations
+                for k, v in enumerate([1, -1] + ([] if task[4] else [rng.choice([21, -21, 81, -71, 1001, -1000001]), -rng.randint(2, 10 ** 6)])):
+                    lines.append(no_line(lang, val_json(v), NAT, noun, "dep" if (k + len(noun)) % 2 else "const", g))
                 # ordinals are singular
                 v = rng.choice([1, 2, 3, 21, 100, 80, 1000])
                 lines.append(no_line(lang, val_json(v), ORD, noun, rng.choice(["const", "dep"]), g))
@@ -850,11 +853,10 @@ def oracle(line, a, fails, spellings):
     if abs(v) >= 10 ** 21:
         return
     if mode == "nat":
-        if lang == "fr" and line.get("g") == "f" and abs(v) == 1 and "err" not in a:
-            if a["r"] not in ("une", "moins une"):
-                fails.append(("spell:fr:feminine-one", line, repr(a)))
-            return
-        check_spelling(lang, v, a, line, fails, spellings if noun is None else None)
+        # inside a number-noun phrase too: the words before the noun are read back (sign included; the feminine
+        # `une` of a French number governed by a feminine noun is the word `un`) and must denote the value
+        check_spelling(lang, v, a, line, fails, spellings, phrase=noun is not None,
+                       feminine=(lang == "fr" and noun is not None and line.get("g") == "f"))
     elif mode == "ord" and v >= 1:
         if "err" in a:
             fails.append(("ordinal:%s:exception:%s" % (lang, a["err"]), line, "ordinal raised"))
@@ -887,23 +889,38 @@ def oracle(line, a, fails, spellings):
             fails.append((sig, line, "NO(%d) printed %r" % (v, a["r"])))
 
 
-def check_spelling(lang, n, a, line, fails, spellings):
+def masculine_form(text):
+    """French: the feminine `une` in unit position (`une`, `moins une`, `vingt et une`, `quatre-vingt-une`) -> `un`"""
+    toks = text.split(" ")
+    if toks and toks[-1] == "une":
+        toks[-1] = "un"
+    elif toks and toks[-1].endswith("-une"):
+        toks[-1] = toks[-1][:-1]
+    return " ".join(toks)
+
+
+def check_spelling(lang, n, a, line, fails, spellings, phrase=False, feminine=False):
+    where = "phrase:" if phrase else ""
     if "err" in a:
-        fails.append(("spell:%s:exception:%s" % (lang, a["err"]), line, "spelling %d raised" % n))
+        fails.append(("spell:%s:%sexception:%s" % (lang, where, a["err"]), line, "spelling %d raised" % n))
         return
     text = a["r"]
+    shown = text + (" " + line["noun"] + "…" if phrase else "")
     try:
-        back = PARSE[lang](text)
+        back = PARSE[lang](masculine_form(text) if feminine else text)
     except NotANumber as e:
-        sig = "spell:%s:%s" % (lang, e.kind) + (":" + e.word if e.word else "")
-        fails.append((sig, line, "%d spelled %r: not a numeral of the language (%s)" % (n, text, e.kind)))
+        sig = "spell:%s:%s%s" % (lang, where, e.kind) + (":" + e.word if e.word else "")
+        fails.append((sig, line, "%d spelled %r: not a numeral of the language (%s)" % (n, shown, e.kind)))
         back = None
     if back is not None and back != n:
-        fails.append(("spell:%s:denotes-another-number" % lang, line, "%d spelled %r which denotes %d" % (n, text, back)))
+        fails.append(("spell:%s:%sdenotes-another-number" % (lang, where), line,
+                      "%d spelled %r which denotes %d" % (n, shown, back)))
     if spellings is not None:
-        o = spellings.setdefault((lang, text), n)
+        # injectivity: alone, before a masculine noun, before a feminine noun are three contexts
+        key = (lang + (":f" if feminine else (":np" if phrase else "")), text)
+        o = spellings.setdefault(key, n)
         if o != n:
-            fails.append(("spell:%s:collision" % lang, line, "%d and %d are both spelled %r" % (o, n, text)))
+            fails.append(("spell:%s:%scollision" % (lang, where), line, "%d and %d are both spelled %r" % (o, n, shown)))
 
 
 def run_task(args):
